@@ -1,6 +1,7 @@
 package main
 
 import (
+	"sort"
 	"fmt"
 	"go/token"
 	"go/types"
@@ -736,6 +737,7 @@ func checkC18(c *Ctx, r *Report) {
 			r.ok("R3", key, "-", fmt.Sprintf("%d accesses (%d writes) all under %s", n, writes, heldStr(common)))
 		}
 	}
+	c.checkTimerNeverNil(r, "R4", li)
 	// R4: publish-before-use of AfterFunc timers
 	for _, fn := range append(c.repoFuncs("transactions"), c.repoFuncs("client")...) {
 		allInstrs(fn, func(i ssa.Instruction) {
@@ -800,6 +802,121 @@ func checkC18(c *Ctx, r *Report) {
 				r.ok("R4", key, c.instrPos(s), "every dereference of the timer shares a lock with the assignment ("+heldStr(assignHeld)+") or is nil-guarded")
 			}
 		})
+	}
+}
+
+// checkTimerNeverNil: a *time.Timer field that some function dereferences
+// without a dominating nil test must have been assigned on every path through
+// every constructor of its struct (shared by C18-R4, C25-R4 and C19-R3: "used
+// before it is assigned" and "never armed" are the same missing assignment).
+func (c *Ctx) checkTimerNeverNil(r *Report, rule string, li *lockInfo) {
+	type fld struct{ tname, fname string }
+	seen := map[fld]bool{}
+	for _, rel := range []string{"transactions", "client", "gateway"} {
+		p := c.ByPath[modPath+"/"+rel]
+		if p == nil {
+			continue
+		}
+		scope := p.Types.Scope()
+		for _, n := range scope.Names() {
+			tn, ok := scope.Lookup(n).(*types.TypeName)
+			if !ok {
+				continue
+			}
+			st, ok := tn.Type().Underlying().(*types.Struct)
+			if !ok {
+				continue
+			}
+			for k := 0; k < st.NumFields(); k++ {
+				if typeIs(derefType(st.Field(k).Type()), "time", "Timer") {
+					if _, isPtr := st.Field(k).Type().(*types.Pointer); isPtr {
+						seen[fld{rel + "." + tn.Name(), st.Field(k).Name()}] = true
+					}
+				}
+			}
+		}
+	}
+	var flds []fld
+	for f := range seen {
+		flds = append(flds, f)
+	}
+	sort.Slice(flds, func(i, j int) bool { return flds[i].tname+flds[i].fname < flds[j].tname+flds[j].fname })
+	for _, fd := range flds {
+		key := fd.tname + "." + fd.fname + ":assigned-before-any-unguarded-use"
+		unguarded := ""
+		for _, a := range li.FieldAccesses(fd.tname, fd.fname) {
+			if a.Write {
+				continue
+			}
+			u, ok := a.Instr.(*ssa.UnOp)
+			if !ok {
+				continue
+			}
+			deref := false
+			if refs := u.Referrers(); refs != nil {
+				for _, rf := range *refs {
+					if ci, ok := rf.(ssa.CallInstruction); ok && len(ci.Common().Args) > 0 && ci.Common().Args[0] == ssa.Value(u) {
+						deref = true
+					}
+				}
+			}
+			if !deref {
+				continue
+			}
+			nilGuard := false
+			for _, g := range guardsOf(a.Instr.Block()) {
+				x, y, op, isCmp := cmpGuard(g)
+				if isCmp && op == token.NEQ && isNilConst(y) {
+					if lu, ok := x.(*ssa.UnOp); ok && lu.Op == token.MUL && sameExpr(lu.X, u.X) {
+						nilGuard = true
+					}
+				}
+			}
+			if !nilGuard {
+				unguarded = c.instrPos(a.Instr)
+			}
+		}
+		if unguarded == "" {
+			r.ok(rule, key, "-", "every dereference of the timer field is nil-guarded")
+			continue
+		}
+		// constructors: functions allocating the struct
+		bad := ""
+		nctor := 0
+		for _, f := range c.allRepoFuncs() {
+			if f.Parent() != nil {
+				continue
+			}
+			var alloc *ssa.Alloc
+			allInstrs(f, func(i ssa.Instruction) {
+				if a, ok := i.(*ssa.Alloc); ok && a.Heap && typeStr(derefType(a.Type())) == fd.tname {
+					alloc = a
+				}
+			})
+			if alloc == nil {
+				continue
+			}
+			nctor++
+			isAssign := func(x ssa.Instruction) bool {
+				s, ok := x.(*ssa.Store)
+				if !ok {
+					return false
+				}
+				fa, ok := s.Addr.(*ssa.FieldAddr)
+				return ok && typeStr(derefType(fa.X.Type())) == fd.tname && fieldName(fa.X.Type(), fa.Field) == fd.fname && !isNilConst(s.Val)
+			}
+			if skip, _ := pathExists(f, nil, func(x ssa.Instruction) bool { _, ok := x.(*ssa.Return); return ok }, isAssign); skip {
+				bad = fnKey(f)
+			}
+		}
+		switch {
+		case nctor == 0:
+			r.undecided(rule, key, unguarded, "the timer is dereferenced without a nil test but no constructor of "+fd.tname+" was found")
+		case bad != "":
+			r.bad(rule, key, unguarded, "the timer field is dereferenced without a nil test ("+unguarded+") but "+bad+" can return an object whose timer was never assigned: completing or cancelling that transaction panics with a nil pointer dereference")
+		default:
+			r.ok(rule, key, unguarded, "dereferenced without a nil test, and every path through every constructor assigns it")
+		}
 	}
 }
 
@@ -1183,5 +1300,22 @@ func checkC19(c *Ctx, r *Report) {
 			}
 		})
 		r.cond(okc, "R3", key, c.pos(fn.Pos()), "timer callback fails the transaction with ErrTimeout", "the timed transaction's timer callback does not fail with ErrTimeout")
+	}
+	// the timed transaction's timer is armed on every path through its constructor: "fails with a timeout
+	// exactly when it is not completed within its timeout" holds for every timeout value, also 0
+	if p := c.SSA[pkTrans].Func("NewTimedTransaction"); p != nil {
+		var af ssa.Instruction
+		allInstrs(p, func(i ssa.Instruction) {
+			if ci, ok := i.(ssa.CallInstruction); ok && calleeName(ci.Common()) == "time.AfterFunc" {
+				af = i
+			}
+		})
+		if af == nil {
+			r.undecided("R3", "NewTimedTransaction:timer-on-every-path", c.pos(p.Pos()), "no AfterFunc in the constructor")
+		} else {
+			skip, _ := pathExists(p, nil, func(x ssa.Instruction) bool { _, ok := x.(*ssa.Return); return ok }, func(x ssa.Instruction) bool { return x == af })
+			r.cond(!skip, "R3", "NewTimedTransaction:timer-on-every-path", c.instrPos(af), "every path through the constructor arms the timer",
+				"a path through NewTimedTransaction returns without arming the timer: for that timeout value an uncompleted transaction never fails with ErrTimeout (or fails without a timer that later completions still dereference)")
+		}
 	}
 }
